@@ -44,30 +44,31 @@ type BuildFunc func(w *World) *Scenario
 
 // Result is what one run produced.
 type Result struct {
-	Seed       int64               `json:"seed"`
-	Config     string              `json:"config"`
-	Class      string              `json:"class,omitempty"`
-	Msg        string              `json:"msg,omitempty"`
-	Hash       string              `json:"hash"`
-	Reason     string              `json:"reason"`
-	Steps      uint64              `json:"steps"`
-	Hooks      uint64              `json:"hooks"`
-	Preempts   uint64              `json:"preempts"`
-	SimNS      int64               `json:"sim_ns"`
-	WallUS     int64               `json:"wall_us"`
-	Strategy   string              `json:"strategy"`
-	Faults     map[string]int      `json:"faults,omitempty"`
-	Probes     map[string]int      `json:"probes,omitempty"`
-	Leaked     int                 `json:"leaked,omitempty"`
-	LeakIDs    []string            `json:"leak_ids,omitempty"`
-	Nontrivial bool                `json:"nontrivial"`
-	Desc       any                 `json:"desc,omitempty"`
-	Streams    map[string][]uint32 `json:"streams,omitempty"`
-	Trace      []string            `json:"trace,omitempty"`
-	Infra      string              `json:"infra,omitempty"`
-	AnonHooks  uint64              `json:"anon_hooks,omitempty"`
-	Tag        string              `json:"tag,omitempty"`
-	TagSpace   int                 `json:"tag_space,omitempty"`
+	Seed         int64               `json:"seed"`
+	Config       string              `json:"config"`
+	Class        string              `json:"class,omitempty"`
+	Msg          string              `json:"msg,omitempty"`
+	Hash         string              `json:"hash"`
+	Reason       string              `json:"reason"`
+	Steps        uint64              `json:"steps"`
+	Hooks        uint64              `json:"hooks"`
+	Preempts     uint64              `json:"preempts"`
+	SimNS        int64               `json:"sim_ns"`
+	WallUS       int64               `json:"wall_us"`
+	Strategy     string              `json:"strategy"`
+	Faults       map[string]int      `json:"faults,omitempty"`
+	Probes       map[string]int      `json:"probes,omitempty"`
+	Leaked       int                 `json:"leaked,omitempty"`
+	LeakIDs      []string            `json:"leak_ids,omitempty"`
+	Nontrivial   bool                `json:"nontrivial"`
+	Desc         any                 `json:"desc,omitempty"`
+	Streams      map[string][]uint32 `json:"streams,omitempty"`
+	Trace        []string            `json:"trace,omitempty"`
+	Infra        string              `json:"infra,omitempty"`
+	CleanupStuck bool                `json:"cleanup_stuck,omitempty"` // the end-of-run cleanup did not return within 30 simulated minutes
+	AnonHooks    uint64              `json:"anon_hooks,omitempty"`
+	Tag          string              `json:"tag,omitempty"`
+	TagSpace     int                 `json:"tag_space,omitempty"`
 }
 
 // panicSink collects panics of registered goroutines (set per run).
@@ -158,7 +159,25 @@ func RunOne(t *testing.T, tape *Tape, config string, keepTrace bool, build Build
 			w.S.FreeRun()
 			panicSink = nil
 			if sc.Cleanup != nil {
-				sc.Cleanup()
+				// The cleanup (closing the connections under test) runs beside the driver and is bounded in
+				// simulated time: code under test that never returns while some goroutine keeps polling
+				// would otherwise keep the bubble alive for ever (it can neither finish nor deadlock).
+				cdone := make(chan any, 1)
+				go func() {
+					defer func() { cdone <- recover() }()
+					sc.Cleanup()
+				}()
+				tm := time.NewTimer(30 * time.Minute)
+				select {
+				case r := <-cdone:
+					tm.Stop()
+					if r != nil {
+						panic(r)
+					}
+				case <-tm.C:
+					res.CleanupStuck = true
+					simhook.Poison()
+				}
 			}
 			left := w.Finish(2 * time.Hour)
 			if left > 0 {
